@@ -393,6 +393,7 @@ func (g *HistGen) maybeCond(t *TableSpec, op *Op) {
 		var c string
 		if g.r.Chance(g.p.BadPct) {
 			c = pick(g.r, garbageExprs)
+			op.GarbageCond = true
 			if strings.Contains(c, ":x") {
 				ctx.Values[":x"] = S("1")
 			}
@@ -528,6 +529,7 @@ func (g *HistGen) genUpdate() {
 		}
 		op.Expr = HexS("SET " + ctx.name([]byte("v")) + " = " + ctx.value(S("touched")) + ", " + ctx.name([]byte(attr)) + " = " + ctx.value(bad) + " REMOVE " + ctx.name([]byte("s1")))
 	} else if g.r.Chance(g.p.BadPct) {
+		op.GarbageUpdate = true
 		op.Expr = HexS(pick(g.r, []string{"SET", "SET v = ", "v = :x", "SET v = :x SET v = :x", "FOO v :x", "SET v = :x,", "REMOVE", "ADD v"}))
 		if strings.Contains(string(op.Expr), ":x") {
 			ctx.Values[":x"] = S("1")
@@ -679,6 +681,7 @@ func (g *HistGen) searchOpX(kind string, forceScan bool) *Op {
 		}
 		if g.r.Chance(g.p.BadPct) {
 			op.KeyTree = nil
+			op.GarbageKey = true
 			kc = pick(g.r, garbageExprs)
 			if strings.Contains(kc, ":x") {
 				ctx.Values[":x"] = S("1")
@@ -746,6 +749,13 @@ func (g *HistGen) searchOpX(kind string, forceScan bool) *Op {
 		if nt, ok := g.nativeText(50, nativeTexts); ok {
 			op.FilterTree = nil
 			f = nt
+			if strings.Contains(f, ":x") {
+				ctx.Values[":x"] = S("1")
+			}
+		} else if g.r.Chance(g.p.BadPct) {
+			op.FilterTree = nil
+			op.GarbageFilter = true
+			f = pick(g.r, garbageExprs)
 			if strings.Contains(f, ":x") {
 				ctx.Values[":x"] = S("1")
 			}
